@@ -17,13 +17,15 @@ import (
 
 	"github.com/dave/dst"
 	"github.com/dave/dst/decorator"
+	"github.com/dave/dst/decorator/resolver/goast"
+	"github.com/dave/dst/decorator/resolver/guess"
 )
 
 func init() { register("C12", "model_checking", checkC12) }
 
 const posTraceCfg = `INIT TInit
 NEXT TNext
-INVARIANTS InFile NoOverlap LinesStrict CommentsSorted RankEqual Reprintable
+INVARIANTS InFile NoOverlap LinesStrict CommentsSorted RankEqual NoPhantom Reprintable
 POSTCONDITION Accepted
 CHECK_DEADLOCK FALSE
 `
@@ -37,6 +39,7 @@ type posFile struct {
 	RankR     []string `json:"rankR"`
 	RankF     []string `json:"rankF"`
 	Reprint   bool     `json:"reprint"`
+	Phantom   []string `json:"phantom"` // token positions the restored ast has and a fresh parse of its print has not
 	name      string
 	note      string
 	rankKey   string
@@ -92,7 +95,15 @@ func posObserveMode(files []*dst.File, names []string, reuseFileRestorer bool) (
 // only through an Object (the AssignStmt the parser invents for range variables, declarations removed
 // from the tree) are positions the restorer assigns as well
 func posObserveExtras(files []*dst.File, names []string, reuseFileRestorer, extras bool) ([]posFile, string) {
+	return posObserveWith(files, names, reuseFileRestorer, extras, false)
+}
+
+// imports: the restorer manages imports (unused imports of the decorated files are removed)
+func posObserveWith(files []*dst.File, names []string, reuseFileRestorer, extras, imports bool) ([]posFile, string) {
 	r := decorator.NewRestorer()
+	if imports {
+		r = decorator.NewRestorerWithImports("example.com/p", guess.New())
+	}
 	r.Extras = extras
 	fr := r.FileRestorer()
 	var out []posFile
@@ -114,7 +125,7 @@ func posObserveExtras(files []*dst.File, names []string, reuseFileRestorer, extr
 	}
 	for fi := range files {
 		af := asts[fi]
-		pf := posFile{name: names[fi], Positions: []int{}, Comments: []int{}, RankR: []string{}, RankF: []string{}, Lines: []int{}}
+		pf := posFile{name: names[fi], Positions: []int{}, Comments: []int{}, RankR: []string{}, RankF: []string{}, Lines: []int{}, Phantom: []string{}}
 		tf := r.Fset.File(af.Pos())
 		if tf == nil {
 			// no registered file contains the ast's position: report with an impossible range
@@ -243,6 +254,9 @@ func posObserveExtras(files []*dst.File, names []string, reuseFileRestorer, extr
 				if fr[k].IsValid() && ff[k].IsValid() {
 					labs = append(labs, lab{fmt.Sprintf("%d.%s", i, k), fr[k], ff[k], len(labs)})
 				}
+				if fr[k].IsValid() && !ff[k].IsValid() {
+					pf.Phantom = append(pf.Phantom, strings.TrimPrefix(fmt.Sprintf("%T", nodesR[i]), "*ast.")+"."+k)
+				}
 			}
 		}
 		for i := range cr {
@@ -326,6 +340,17 @@ func checkC12(c *Ctx) {
 			groups = append(groups, group{[]int{i}, "extras-removed"})
 		}
 	}
+	// import blocks that lose specs under import management (unused imports are removed): 2 -> 1, 3 -> 1, 3 -> 2, 2 -> 0
+	for i, src := range []string{
+		"package p\n\nimport (\n\t\"fmt\"\n\t\"os\"\n)\n\n// c\nfunc f() { fmt.Println() }\n",
+		"package p\n\nimport (\n\t\"bytes\"\n\t\"fmt\" // trailing\n\t\"os\"\n)\n\nfunc f() { fmt.Println() }\n",
+		"package p\n\nimport (\n\t\"bytes\"\n\n\t\"fmt\"\n\t\"os\"\n)\n\nfunc f() { fmt.Println(os.Args) }\n",
+		"package p\n\nimport (\n\t\"fmt\"\n\t\"os\"\n)\n\nvar x = 1\n",
+		"package p\n\nimport \"fmt\"\n\nimport (\n\tb \"bytes\"\n\t\"os\"\n)\n\nfunc f() { fmt.Println(b.MinRead) }\n",
+	} {
+		files = append(files, srcFile{fmt.Sprintf("imports-pruned-%d", i), []byte(src)})
+		groups = append(groups, group{[]int{len(files) - 1}, "imports-pruned"})
+	}
 	// two files with range statements, restored with Extras into one file set
 	files = append(files, srcFile{"extras-range-a", []byte("package p\n\nfunc a(m map[string]int) (s string) {\n\tfor k, e := range m {\n\t\tif e > 0 {\n\t\t\ts = k\n\t\t}\n\t}\n\treturn\n}\n")},
 		srcFile{"extras-range-b", []byte("package p\n\nfunc b(xs []int) (n int) {\n\tfor i, x := range xs {\n\t\tn += i * x\n\t}\n\treturn\n}\n")})
@@ -389,6 +414,9 @@ func checkC12(c *Ctx) {
 		var names []string
 		for _, i := range g.idx {
 			df, err := decorator.Parse(files[i].Src)
+			if g.mode == "imports-pruned" {
+				df, err = decorator.NewDecoratorWithImports(token.NewFileSet(), "example.com/p", goast.New()).Parse(files[i].Src)
+			}
 			if err != nil {
 				return
 			}
@@ -428,7 +456,7 @@ func checkC12(c *Ctx) {
 		}
 		keys[gi] = key
 		c.Eval(key, g.mode != "plain" || len(g.idx) > 1)
-		obs, msg := posObserveExtras(dfs, names, reuse, strings.HasPrefix(g.mode, "extras"))
+		obs, msg := posObserveWith(dfs, names, reuse, strings.HasPrefix(g.mode, "extras"), g.mode == "imports-pruned")
 		if msg != "" && g.mode == "extras-removed" {
 			c.Add("extras_removed_inapplicable", 1) // Extras asks the user to manage objects of removed nodes
 			return
